@@ -262,6 +262,14 @@ impl Sys for RegSys {
             let k = guard(|| core::using_store(*id, |s| canon_store(s, m.l))).ok()?;
             key.extend_from_slice(&(k.len() as u32).to_le_bytes());
             key.extend(k);
+            // model side of the state (see c10.rs)
+            for r in &m.recs {
+                key.extend_from_slice(&(r.0 as u32).to_le_bytes());
+            }
+            key.push(0xf7);
+            key.extend_from_slice(&(m.limit as u64).to_le_bytes());
+            key.push(m.markers as u8);
+            key.push(m.l as u8);
             for (rid, t) in &m.last {
                 key.extend_from_slice(&(*rid as u32).to_le_bytes());
                 key.extend_from_slice(t.as_bytes());
@@ -300,7 +308,9 @@ impl Prop for C20 {
     fn run(&self, _dom: usize, idx: u64, cx: &mut Cx) {
         let (ids, d, du) = &self.configs[idx as usize];
         let sys = RegSys::new(ids.clone());
-        let out = bfs(&sys, cx, "merged_", vec![vec![]], *d, true, Duration::from_secs(self.tier.pick(120, 2400)), None);
+        // initial registry, and a non-initial start: store 1 already holds two records
+        let starts = vec![vec![], vec![Op::Create(ids[0], 0), Op::Add(ids[0], 0), Op::Add(ids[0], 1)]];
+        let out = bfs(&sys, cx, "merged_", starts, *d, true, Duration::from_secs(self.tier.pick(120, 2400)), None);
         cx.class(&format!("bfs:merged:ids{}:depth{}", ids.len(), out.depth_completed));
         let out2 = bfs(&sys, cx, "unmerged_", vec![vec![]], *du, false, Duration::from_secs(self.tier.pick(40, 600)), Some(&out.seen));
         if out2.missing > 0 && !out.capped {
